@@ -183,6 +183,7 @@ HARNESSES = {
         "link_flags": ["-rdynamic"],
         "extra_targets": _rt_extra,
         "level": {"C09": "fault_enumeration"},
+        "extras": {"C09": ["rt_fault_enum"]},
         "quick": {"rc_cases": 1500, "rc_size": 40},
         "thorough": {"rc_cases": 40000, "rc_size": 60},
     },
